@@ -337,6 +337,29 @@ def check_escape(db, rep, tls_objs, units=None):
                             n += 1
                             rep.fail('E.escape', f['name'], unit.loc(node), 'thread-local scratch never escapes by pointer or reference',
                                      'returns %s derived from thread-local %s' % (ret, x.get('name')), f['name'])
+    # the address of a thread-local object stored in an object that all threads share (a non-thread-local static):
+    # every thread then works on the storage of whichever thread ran the initialiser
+    for un in (units or UNITS):
+        unit = db.unit(un)
+        decls = []
+        for f in unit.functions:
+            for node in walk(f.get('body')):
+                if node.get('k') == 'VarDecl' and node.get('staticLocal') and not node.get('tls') and node.get('init') is not None:
+                    decls.append((node, f['name']))
+        for g in unit.globals:
+            d = g.get('decl')
+            if d is not None and not g.get('tls') and d.get('init') is not None:
+                decls.append((d, g.get('function')))
+        for d, fn in decls:
+            t = d.get('t', '')
+            if not ('*' in t or '&' in t or d.get('ref')):
+                continue
+            for x in walk(d['init']):
+                if x.get('k') == 'DeclRefExpr' and x.get('tls'):
+                    n += 1
+                    rep.fail('E.escape', '%s@%s' % (d.get('name'), fn or 'namespace scope'), unit.loc(d), 'thread-local scratch never escapes by pointer or reference',
+                             'static %s %s (shared by all threads) is initialised from the thread-local object %s' % (t, d.get('name'), x.get('name')), fn)
+                    break
     if n == 0:
         rep.ok('E.escape')
 
